@@ -296,14 +296,14 @@ class TetrahedronMethod:
             v = self._vertices_omegas
             if omega < v[0]:
                 sum_value += IJ(0, np.where(indices == ci)[0][0]) * gn(0)
-            elif v[0] < omega and omega < v[1]:
-                sum_value += IJ(1, np.where(indices == ci)[0][0]) * gn(1)
-            elif v[1] < omega and omega < v[2]:
-                sum_value += IJ(2, np.where(indices == ci)[0][0]) * gn(2)
-            elif v[2] < omega and omega < v[3]:
-                sum_value += IJ(3, np.where(indices == ci)[0][0]) * gn(3)
-            elif v[3] < omega:
+            elif v[3] <= omega:
                 sum_value += IJ(4, np.where(indices == ci)[0][0]) * gn(4)
+            elif v[0] < omega and omega <= v[1]:
+                sum_value += IJ(1, np.where(indices == ci)[0][0]) * gn(1)
+            elif v[1] < omega and omega <= v[2]:
+                sum_value += IJ(2, np.where(indices == ci)[0][0]) * gn(2)
+            elif v[2] < omega:
+                sum_value += IJ(3, np.where(indices == ci)[0][0]) * gn(3)
 
         return sum_value / 6
 
